@@ -811,7 +811,13 @@ private:
         if (allow_multimapping) {
             // TODO: reimplement without double traversal
             std::pair<const_iterator, const_iterator> r = equal_range(key);
-            return std::distance(r.first, r.second);
+            // Elements with greater keys can be inserted in front of the end of the range concurrently:
+            // count the equivalent elements only
+            size_type count = 0;
+            for (const_iterator it = r.first; it != r.second && !my_compare(key, container_traits::get_key(*it)); ++it) {
+                ++count;
+            }
+            return count;
         }
         return size_type(contains(key) ? 1 : 0);
     }
